@@ -271,7 +271,7 @@ func LiveMPD(a *asset, mpdName string, cfg *ResponseConfig, drmCfg *drm.DrmConfi
 				return nil, fmt.Errorf("adjustASForTimelineTime: %w", err)
 			}
 			if asIdx == 0 {
-				mpd.PublishTime = m.ConvertToDateTime(calcPublishTime(cfg, se.lsi))
+				mpd.PublishTime = m.ConvertToDateTimeMS(int64(math.Round(calcPublishTime(cfg, se.lsi) * 1000)))
 			}
 		case timeLineNumber:
 			err := adjustAdaptationSetForTimelineNr(cfg, se, as)
@@ -279,7 +279,7 @@ func LiveMPD(a *asset, mpdName string, cfg *ResponseConfig, drmCfg *drm.DrmConfi
 				return nil, fmt.Errorf("adjustASForTimelineNr: %w", err)
 			}
 			if asIdx == 0 {
-				mpd.PublishTime = m.ConvertToDateTime(calcPublishTime(cfg, se.lsi))
+				mpd.PublishTime = m.ConvertToDateTimeMS(int64(math.Round(calcPublishTime(cfg, se.lsi) * 1000)))
 			}
 		case segmentNumber:
 			err := adjustAdaptationSetForSegmentNumber(cfg, a, as)
